@@ -198,8 +198,11 @@ class Run:
         funcs, obls, cmds, trusted, unused = [], [], [], [], []
         solver_s = 0.0
         by_solver = {}
+        self.phases = []
         for spec in cfg.get("govc", []):
+            tp = time.time()
             rep = self.run_govc(spec)
+            self.phases.append({"phase": "govc " + ",".join(spec.get("pkgs", [])) + " in " + os.path.basename(self.subst(spec.get("dir", ""))), "secs": round(time.time() - tp, 1), "cached": bool(rep.get("cached"))})
             cmds.append(rep["cmd"])
             funcs += rep.get("functions") or []
             obls += rep.get("obligations") or []
@@ -211,14 +214,18 @@ class Run:
         bounded = []
         for spec in cfg.get("bounded", []):
             envx = {k: (v[self.tier] if isinstance(v, dict) else (v(self) if callable(v) else v)) for k, v in spec.get("env", {}).items()}
+            tp = time.time()
             r = self.run_bounded(spec, envx)
+            self.phases.append({"phase": "bounded " + spec["name"], "secs": round(time.time() - tp, 1)})
             r["name"] = spec["name"]
             r["scope"] = envx
             r["stands_in_for"] = spec.get("stands_in_for", [])
             bounded.append(r)
         extra = []
         for fn in cfg.get("extra", []):
+            tp = time.time()
             extra.append(fn(self))
+            self.phases.append({"phase": "extra " + fn.__name__, "secs": round(time.time() - tp, 1)})
 
         basep = os.path.join(VERIF, "baseline", self.prop + ".json")
         if record_baseline:
@@ -337,6 +344,7 @@ class Run:
         self.say("%s tier=%s: functions under contract=%d verified=%d obligations=%d discharged=%d bounded=%s extra=%s wall=%.1fs" % (
             self.prop, self.tier, len(funcs), nfun, ev["coverage"]["obligations"], ev["coverage"]["discharged"],
             [(b["name"], b["cases"], len(b["fails"])) for b in bounded], [(e.get("name"), e.get("cases")) for e in extra], time.time() - self.t0))
+        self.say("phases: " + "; ".join("%s %.0fs%s" % (ph["phase"], ph["secs"], " (cached)" if ph.get("cached") else "") for ph in self.phases))
         if len(funcs) + len(bounded) + len(extra) == 0:
             raise EngineError("no obligations and no cases were generated (vacuous check)")
         if cfg.get("govc") and not proof_obls:
@@ -410,6 +418,7 @@ class Run:
             cov.setdefault("rule", "deterministic exhaustive enumeration of the stated scope; every enumerated case is distinct by construction")
         if not cov["samples"]:
             cov["samples"] = [{"note": "no obligations"}]
+        cov["phases"] = getattr(self, "phases", [])
         return {
             "property_id": self.prop, "tier": self.tier, "seed": self.seed, "level": level, "coverage": cov,
             "assumptions": self.assumptions + ["abstraction: " + n for n in notes],
